@@ -1,2 +1,142 @@
-(* Props.C07 — placeholder; theorems are being added. *)
-Require Import PyStr DataRead.
+(* Props.C07 — curves are rectangular and bound to their own column.
+   Statements only; proofs in Proofs/DataReadProofs.v and Proofs/ItemsBindProofs.v.
+
+   Reading.  The normal engine flattens all tokens of the data section (normal_items),
+   reshapes the flat array by the column count (reshape = np.reshape(arr, (-1, n))) and
+   yields the columns of the result (transpose_n); las.py then binds column j to curve j
+   (Model/Read.v bind_columns: declared curves in order, one new unnamed curve per surplus
+   column) and gives every curve without a column a NaN column of the common length
+   (data_for_curves).  rows : list of data lines, each the list of its tokens.
+
+   Proved at full strength (unbounded numbers of rows r, columns c and declared curves d):
+     C07_reshape_rows         reshaping the concatenation of rows of n tokens gives back
+                              exactly those rows (no shift, whatever r is);
+     C07_transpose_nth        column j of the transposed matrix is [row_0[j]; row_1[j]; ...]:
+                              value j of data line i is element i of column j; there are
+                              exactly n columns, each with one element per row;
+     C07_bind_length          after binding there are max d c curves;
+     C07_bind_declared_frame  the declared curves keep their order and their metadata
+                              (original mnemonic, unit, value, description); what follows
+                              them is (c - d) copies of the unnamed curve.  Only SESSION
+                              mnemonics may change (duplicate suffixes ":1", ":2" among
+                              the unnamed/UNKNOWN ones);
+     C07_bind_declared        per position: curve j < d of the result is declared curve j;
+     C07_bind_new_unnamed     per position: curve j, d <= j < c, has empty original
+                              mnemonic, unit, value and description;
+     C07_data_columns         the data array has one column per curve; column j < c is data
+                              column j itself (never shifted, merged or reordered); column
+                              j >= c is NaN of the common length;
+     C07_rectangular          all columns of the data array have the common length
+                              (both forms: stated with curve_length, and for a given r);
+     C07_normal_engine_binds  the normal engine on a body whose data lines each split into
+                              exactly c float tokens returns, as column j, the CNum cells of
+                              [row_0[j]; row_1[j]; ...] (Proofs/DataReadProofs.v
+                              normal_engine_rows; line_items = what one physical line
+                              contributes after strip / comment test / substitutions / ^Z
+                              removal / splitting).
+   Outside these statements: WRAP=YES bodies (Model: same normal_items, the claim is made
+   for c = d only, see DESIGN.md), and the sniffing of c (C02_sniff).  No oracle assumption
+   except is_float_tok (= float(tok) succeeds) in C07_normal_engine_binds. *)
+From Coq Require Import List NArith Bool String.
+Import ListNotations.
+Require Import PyStr Num SectionParse DataRead Read DataReadProofs ItemsBindProofs.
+Open Scope string_scope.
+Open Scope list_scope.
+
+Theorem C07_reshape_rows : forall n (rows : list (list (list N))),
+  (0 < n)%nat -> Forall (fun r => List.length r = n) rows ->
+  reshape n (List.concat rows) = Some rows.
+Proof. exact reshape_concat. Qed.
+
+Theorem C07_transpose_nth : forall n (rows : list (list (list N))),
+  List.length (transpose_n n rows) = n /\
+  forall j, (j < n)%nat ->
+    nth j (transpose_n n rows) [] = map (fun r => nth j r []) rows /\
+    List.length (nth j (transpose_n n rows) []) = List.length rows.
+Proof.
+  intros n rows. split; [apply transpose_n_length|].
+  intros j Hj. split; [apply transpose_n_nth; exact Hj|apply transpose_n_col_length; exact Hj].
+Qed.
+
+Theorem C07_bind_length : forall tr curves (cols : list (list cell)),
+  List.length (bind_columns tr curves 0 cols) = Nat.max (List.length curves) (List.length cols).
+Proof. exact bind_columns_length. Qed.
+
+Theorem C07_bind_declared_frame : forall tr curves (cols : list (list cell)),
+  map meta (bind_columns tr curves 0 cols) =
+  map meta curves ++ repeat (meta (new_item [] [] (VStr []) [])) (List.length cols - List.length curves).
+Proof. exact bind_columns_meta. Qed.
+
+Theorem C07_bind_declared : forall tr curves (cols : list (list cell)) j it,
+  nth_error curves j = Some it ->
+  exists it', nth_error (bind_columns tr curves 0 cols) j = Some it' /\
+    i_orig it' = i_orig it /\ i_unit it' = i_unit it /\ i_value it' = i_value it /\ i_descr it' = i_descr it.
+Proof.
+  intros tr curves cols j it Hj. destruct (bind_columns_declared tr curves cols j it Hj) as (it' & H1 & H2).
+  exists it'. split; [exact H1|]. unfold meta in H2. injection H2 as E1 E2 E3 E4. auto.
+Qed.
+
+Theorem C07_bind_new_unnamed : forall tr curves (cols : list (list cell)) j,
+  (List.length curves <= j < List.length cols)%nat ->
+  exists it', nth_error (bind_columns tr curves 0 cols) j = Some it' /\
+    i_orig it' = [] /\ i_unit it' = [] /\ i_value it' = VStr [] /\ i_descr it' = [].
+Proof. exact bind_columns_new_unnamed. Qed.
+
+Theorem C07_data_columns : forall n (cols : list (list cell)),
+  (List.length cols <= n)%nat ->
+  List.length (data_for_curves n cols) = n /\
+  (forall j, (j < List.length cols)%nat -> nth j (data_for_curves n cols) [] = nth j cols []) /\
+  (forall j, (List.length cols <= j < n)%nat ->
+     nth j (data_for_curves n cols) [] = nan_column (curve_length cols)) /\
+  (forall r, cols <> [] -> Forall (fun c => List.length c = r) cols -> curve_length cols = r).
+Proof.
+  intros n cols Hle. split; [apply data_for_curves_length; exact Hle|].
+  split; [intros j; apply data_for_curves_own|].
+  split; [intros j; apply data_for_curves_nan|].
+  intros r. apply curve_length_common.
+Qed.
+
+Theorem C07_rectangular : forall n (cols : list (list cell)),
+  (Forall (fun c => List.length c = curve_length cols) cols ->
+   Forall (fun c => List.length c = curve_length cols) (data_for_curves n cols)) /\
+  (forall r, cols <> [] -> Forall (fun c => List.length c = r) cols ->
+   Forall (fun c => List.length c = r) (data_for_curves n cols)).
+Proof.
+  intros n cols. split; [apply data_for_curves_rect|].
+  intros r. apply data_for_curves_rect_r.
+Qed.
+
+(* non-vacuity: 3 data lines of 2 tokens carrying their coordinates, 3 declared curves
+   (one more than columns) and 1 declared curve (one fewer) *)
+Definition ex_rows : list (list (list N)) :=
+  [ [s2l "100"; s2l "101"]; [s2l "200"; s2l "201"]; [s2l "300"; s2l "301"] ].
+Example C07_ex_rows : (0 < 2)%nat /\ Forall (fun r => List.length r = 2%nat) ex_rows.
+Proof. split; [repeat constructor|repeat constructor]. Qed.
+Example C07_ex_reshape : reshape 2 (List.concat ex_rows) = Some ex_rows.
+Proof. vm_compute. reflexivity. Qed.
+Example C07_ex_transpose :
+  transpose_n 2 ex_rows = [ [s2l "100"; s2l "200"; s2l "300"]; [s2l "101"; s2l "201"; s2l "301"] ].
+Proof. vm_compute. reflexivity. Qed.
+
+Definition ex_curve (m : string) : hitem := new_item (s2l m) (s2l "M") (VStr []) (s2l "d").
+Definition ex_cols : list (list cell) := map (map CNum) (transpose_n 2 ex_rows).
+Example C07_ex_bind_fewer :
+  map i_sess (bind_columns false [ex_curve "DEPT"] 0 ex_cols) = [s2l "DEPT"; s2l "UNKNOWN"].
+Proof. vm_compute. reflexivity. Qed.
+Example C07_ex_bind_more :
+  map i_sess (bind_columns false [ex_curve "DEPT"; ex_curve "A"; ex_curve "B"] 0 ex_cols)
+  = [s2l "DEPT"; s2l "A"; s2l "B"].
+Proof. vm_compute. reflexivity. Qed.
+Example C07_ex_data :
+  data_for_curves 3 ex_cols = ex_cols ++ [[CNaN; CNaN; CNaN]] /\ ex_cols <> [] /\
+  Forall (fun c => List.length c = 3%nat) ex_cols /\ (List.length ex_cols <= 3)%nat.
+Proof. split; [vm_compute; reflexivity|]. split; [discriminate|]. split; vm_compute; repeat constructor. Qed.
+
+Print Assumptions C07_reshape_rows.
+Print Assumptions C07_transpose_nth.
+Print Assumptions C07_bind_length.
+Print Assumptions C07_bind_declared_frame.
+Print Assumptions C07_bind_declared.
+Print Assumptions C07_bind_new_unnamed.
+Print Assumptions C07_data_columns.
+Print Assumptions C07_rectangular.
